@@ -13,7 +13,7 @@ SI = {'n': F(1, 10**9), 'u': F(1, 10**6), 'µ': F(1, 10**6), 'm': F(1, 1000), 'c
       'k': F(1000), 'M': F(10**6)}
 QBASES = ['mol', 'g', 'L', 'M', 'U']
 CBASES = ['mol', 'L', 'g', 'U']
-LITERALS = ['1', '0.5', '2.5e-3', '-1', '+3', '1e3', '5e-11', '007', '.5', '5.', '0', '12.75', '1E-2', '0.00000000004', '3e9']
+LITERALS = ['1', '0.5', '2.5e-3', '-1', '5e-11', '+3', '1e3', '007', '.5', '5.', '0', '12.75', '1E-2', '0.00000000004', '3e9']
 BAD_TOKENS = ['', 'x', 'l', 'pL', 'xmol', 'Lm', 'gg', 'mo', 'molL', 'mmL', 'KL', 'mu', 'daa', 'G', 'ml', 'UU', 'ΜL']
 RULE = ('complete enumeration: prefixes x base units x literal stream for quantities; numerator x denominator (prefix,base) pairs x '
         'optional denominator value for concentrations; percent and m/M forms; malformed stream. non-trivial = every accepted '
